@@ -48,7 +48,7 @@ def parse_by_type(kind, values, default=None):
 
 
 class CfgImpl(object):
-    def __init__(self, world, table, defaults=None, with_defaults_key=True, spelling=None, underscore_socks=None, mid=None, setup=None):
+    def __init__(self, world, table, defaults=None, with_defaults_key=True, spelling=None, underscore_socks=None, mid=None, setup=None, attach=False):
         """
         table: ordered list of (name, initial values list)
         defaults: dict name -> list of default values (served through config/defaults)
@@ -77,7 +77,12 @@ class CfgImpl(object):
             sim.info['config/defaults'] = dl
         if setup is not None:
             setup(sim)                   # further state the Tor is in before the client reads its configuration
-        self.cfg = TorConfig(self.proto)
+        if attach:
+            # the way launch() builds it: an unattached TorConfig first, the protocol attached later
+            self.cfg = TorConfig()
+            self.cfg.attach_protocol(self.proto)
+        else:
+            self.cfg = TorConfig(self.proto)
         self.boot = []
         self.cfg.post_bootstrap.addCallbacks(lambda c: self.boot.append('ok'), lambda f: self.boot.append(f))
         finish_bootstrap(self.proto)
